@@ -86,7 +86,7 @@ class BasicContiguousVector<cntgs::Options<Option...>, Parameter...>
 
     size_type max_element_count_{};
     StorageType memory_{};
-    ElementLocatorAndFixedSizes locator_;
+    ElementLocatorAndFixedSizes locator_{};
 
     BasicContiguousVector() = default;
 
